@@ -18,7 +18,7 @@ macro "ptr_arith" : tactic => `(tactic| (
 
 /-- variant that decides `if`s by `omega` and keeps the hypotheses intact -/
 macro "ptr_arith2" : tactic => `(tactic| (
-  repeat' (first | omega | (apply And.intro) | (rw [if_pos (by omega)]) | (rw [if_neg (by omega)]) | split | (simp [*]; done) | simp)))
+  repeat' (first | omega | (apply And.intro) | (simp (disch := omega) only [if_pos, if_neg]) | split | (simp [*]; done) | simp)))
 
 theorem new_eq (m : Mem) :
     new m = if m.alloc.1 then (.ok, some (ofList []), m.alloc.2) else (.errAlloc, none, m.alloc.2) := by
